@@ -19,12 +19,12 @@ from props import c06_util as X
 PROP = "C06"
 LEVEL = "proof"
 GEN_UNITS = ["GenUtils", "GenSptensor4"]     # GenSptensor4: Props/C06W4.v C06_gen_permute / C06_gen_ones are about the generated whole methods
-COQ_TARGETS = ["Props/C06.vo", "Props/C06W4.vo", "Model/C06Stm.vo", "Model/C06Cont.vo", "Model/C06W4.vo", "Model/Harness.vo"]
-THEOREM_FILES = ["Props/C06.v", "Props/C06W4.v"]
+COQ_TARGETS = ["Props/C06.vo", "Props/C06W4.vo", "Props/C06W5.vo", "Model/C06Stm.vo", "Model/C06Cont.vo", "Model/C06W4.vo", "Model/C06W5.vo", "Model/Harness.vo"]
+THEOREM_FILES = ["Props/C06.v", "Props/C06W4.v", "Props/C06W5.v"]
 COQ_IMPORTS = ("From Coq Require Import List ZArith Bool QArith Qcanon.\n"
                "From PV Require Import Base.Index Np.Array Model.Sparse Model.Repr Model.Harness Model.C03Ops Model.C06Ops Model.C01Conv Model.C06Stm Model.C06Cont\n"
                "                       Model.C02Spec Model.C02Sparse Model.C02SpKernels Model.C02SpMore Model.C07Ops\n"
-               "                       Gen.GenUtils Model.C03Gen Model.C03Chk2 Model.C01Unique Model.C01Coo Model.C06W4.\n"
+               "                       Gen.GenUtils Model.C03Gen Model.C03Chk2 Model.C01Unique Model.C01Coo Model.C06W4 Model.C06W5.\n"
                'Set Warnings "-abstract-large-number".\n')
 RULE = ("stream 1: every C03 request (operator x right-hand-side kind) on all zero-pattern pairs of the shapes (2,2) [operators rotated] and "
         "(3,) [all operators], plus seeded larger shapes; squash and from_aggregator with permuted input rows. stream 2 (admissible requests "
@@ -57,8 +57,23 @@ RULE = ("stream 1: every C03 request (operator x right-hand-side kind) on all ze
         "WITHOUT attribution, against the as-is models (ops div_asis / squash_asis: every run literally what impl_div_sparse_gen / "
         "squash_asis return on the operands as stored, structurally well-formed, same array for every stored order); the sptenmat "
         "constructor and from_array (dense and scipy-coo input, repeated / cancelling / zero triples) are re-run with the triples in "
-        "all m! orders (m <= 4; identity / reversed / 3 random beyond) and tied to C01's constructor models up to stored order")
-EXPLANATION = ("WAVE 4 (Props/C06W4.v, 18 theorems): the aggregating constructors with ARBITRARY input (from_aggregator: C06_from_aggregator(+_indep); "
+        "all m! orders (m <= 4; identity / reversed / 3 random beyond) and tied to C01's constructor models up to stored order. WAVE 5: "
+        "ONE subscript assignment that zeroes stored entries, overwrites OTHER stored entries and creates new ones (targets in random "
+        "order, optionally a second call), for all n! stored orders of the receiver, the result tied to the assigned array (sp_den_is, all "
+        "setitem requests made of subscript steps); from_aggregator with np.max / np.min / np.prod / len / first-of-group on repeated rows "
+        "(every run = the model on the rows as listed; all runs the same result except for `first`); sparse masks without stored "
+        "entries (ordinary since /repo 5f8b038); scale with ill-sized factors on receivers with and without entries (refused alike since "
+        "/repo d89c921) and admissible factors on empty receivers; the huge sparse*sparse and innerprod observations are what the "
+        "linear-time walks minner / mmul compute from the operands listed ascending (huge_mul_ok, huge_inner_ok), huge mask tied to impl_mask_sp (thorough)")
+EXPLANATION = ("WAVE 5 (Props/C06W5.v, 11 theorems): collapse with such a reducer keeps the container kind and the result for every stored order "
+               "(C06_cont_collapse_reducer_indep, _wf); innerprod with a Kruskal operand IS the sum over all subscripts (C06_innerprod_kruskal_value); "
+               "sptendiag is well-formed and denotes the super-diagonal (C06_sptendiag); from_aggregator with ANY reducer that does not look at the order of its group gives the same result "
+               "for every order of the input rows (C06_from_aggregator_any_reducer_indep; max / min / prod / len are such reducers, first-of-group "
+               "is not: C06_reducers_perm_inv, C06_from_aggregator_reducers_indep); the linear-time evaluators of the huge cases are proved: the "
+               "simultaneous walk over two ascending coordinate lists computes the sum over ALL subscripts = impl_innerprod_sp_sp "
+               "(C06_walk_innerprod) and a well-formed ascending list denoting the product = C03's impl_mul up to stored order (C06_walk_mul), "
+               "hence a huge observation accepted by huge_inner_ok / huge_mul_ok is the specified result (C06_huge_inner_sound, C06_huge_mul_sound). "
+               "WAVE 4 (Props/C06W4.v, 18 theorems): the aggregating constructors with ARBITRARY input (from_aggregator: C06_from_aggregator(+_indep); "
                "sptenmat.__init__ and from_array of a non-canonical scipy matrix: C06_stm_ctor, C06_stm_from_coo re-exported from C01, and "
                "C06_stm_ctor_indep / C06_stm_from_coo_indep: LITERALLY the same object for every order of the input triples); squash as pyttb "
                "computes it (C06_squash_asis, _indep) with the trigger of A-27 proved exact (C06_squash_asis_spec_iff); sparse/sparse as "
@@ -87,8 +102,8 @@ CORRESPONDENCE_ONLY = [
     "__truediv__ with a scalar / dense operand (result well-formedness is part of C03_div_scalar / C03_div_dense_partial; the sparse operand is "
     "PROVED since wave 4: C06_div_sparse_wf_iff / _indep / _ieee), logical_or/xor with dense/scalar operands (dense results), __eq__ / __ne__ "
     "with a scalar: order independence observed on pyttb's raw outputs (S != S2, S == T, S != T, _compare as written: C06_ops_generated2)",
-    "from_aggregator with a reducer other than sum (C03_from_aggregator covers any reducer for the result's well-formedness; order "
-    "independence of the INPUT rows is proved for sum only: C06_from_aggregator_indep)",
+    "from_aggregator with a reducer other than sum: PROVED since wave 5 for every permutation-invariant reducer (C06_from_aggregator_any_reducer_indep "
+    "over C03's hand model from_aggregator; np.mean and other non-integral reducers are not in the Z stream)",
     "innerprod with a Kruskal operand: order independence PROVED (C06_ops_innerprod_kruskal over impl_innerprod_sp_k, tied by the first "
     "run), its equality with the defining sum is observed (zinner) only; norm: the square root (norm^2 is proved order-independent)",
     "ttm with several matrices (a chain of single-mode products, each covered by C06_cont_ttm) and the 50% switch of ttm with a scipy matrix "
@@ -102,14 +117,23 @@ CORRESPONDENCE_ONLY = [
     "A-27, pinned by the squash doctest); pyttb is tied to the specified model outside the trigger and to squash_asis inside it",
     "sptenmat constructor with copy=False (stores the triples as given: nothing to prove; histories observe it), sptenmat.from_array of a "
     "dense matrix (C01_from_array_dense; tied to from_array_dense by the first run, no C06 re-export)",
-    "huge operands (> 2**22 candidate row pairs): runs compared with each other (linear-time checkers), model tie only for extract",
-    "chains, memory layouts, generators sptendiag, sptenrand, from_function: observed only",
+    "huge operands (> 2**22 candidate row pairs): runs compared with each other (linear-time checkers); model tie for extract, mask (impl_extract / "
+    "impl_mask_sp), sparse*sparse and innerprod (proved walks mmul / minner: C06_huge_mul_sound, C06_huge_inner_sound); and / le / getitem: runs compared only",
+    "chains, memory layouts, generators sptenrand, from_function: observed only (sptendiag: PROVED since wave 5, C06_sptendiag over the transliteration "
+    "impl_sptendiag, tied by sp_perm_eqb)",
 ]
 
 
 # ---------------------------------------------------------------------------------------------
 # generation
 # ---------------------------------------------------------------------------------------------
+REDUCERS = ("max", "min", "prod", "len", "first")       # Model/C06W5.v red_*; "first" looks at the order of the group (not permutation invariant)
+
+
+def py_reducer(np, red):
+    return X.np_reducer(np, red)
+
+
 def variants_for(a, rng):
     """list of (perm of A's entries, perm of B's entries or None): identity first"""
     na = len(a["subs"])
@@ -240,6 +264,12 @@ def gen_cases(rng, tier):
             rows[1] = list(rows[0])
             rv[1] = -rv[0]
         cases.append(mk_case("from_agg", {"shape": list(shape), "subs": rows, "vals": rv}, rng))
+        # wave 5: a reducer other than sum (np.max / np.min / np.prod / len / the first value of the group), rows that repeat
+        m = rng.randint(1, 6)
+        base = [[rng.randrange(d) for d in shape] for _ in range(rng.randint(1, 3))]
+        rows = [list(rng.choice(base)) if rng.random() < 0.7 else [rng.randrange(d) for d in shape] for _ in range(m)]
+        rv = [rng.choice((-3, -2, -1, 1, 2, 3, 0)) for _ in range(m)]
+        cases.append(mk_case("from_agg_red", {"shape": list(shape), "subs": rows, "vals": rv, "red": rng.choice(REDUCERS)}, rng))
     # second stream: scalar-valued operations and every other public operation on a sparse tensor
     cases += X.gen_ext(rng, tier, lambda op, a: mk_case(op, a, rng))
     cases += X.gen_huge(rng, tier, lambda op, a: mk_huge(op, a, rng))
@@ -275,11 +305,14 @@ def run_one(op, a):
             return X.strict_bits(np, ttb, R, U.observe(ttb, np, R))
         except Exception as ex:
             return {"exc": type(ex).__name__, "msg": str(ex)[:160]}
-    if op == "from_agg":
+    if op in ("from_agg", "from_agg_red"):
         try:
             s = np.array(a["subs"], dtype=int).reshape((len(a["subs"]), len(a["shape"])))
             v = np.array(a["vals"], dtype=float).reshape((len(a["vals"]), 1))
-            R = ttb.sptensor.from_aggregator(s.copy(), v.copy(), tuple(a["shape"]))
+            if op == "from_agg_red":
+                R = ttb.sptensor.from_aggregator(s.copy(), v.copy(), tuple(a["shape"]), function_handle=py_reducer(np, a["red"]))
+            else:
+                R = ttb.sptensor.from_aggregator(s.copy(), v.copy(), tuple(a["shape"]))
             return X.strict_bits(np, ttb, R, U.observe(ttb, np, R))
         except Exception as ex:
             return {"exc": type(ex).__name__, "msg": str(ex)[:160]}
@@ -347,6 +380,8 @@ def coq_check(c, o):
         return None if pending(c, o) else X.check_ext(c, runs)
     if c.op in ("div_asis", "squash_asis"):
         return check_asis(c, runs)
+    if c.op == "from_agg_red":
+        return check_agg_red(c, runs)
     kinds = {r.get("kind") for r in runs}
     if len(kinds) != 1 or kinds - {"sparse", "dense"}:
         return "false"
@@ -368,7 +403,12 @@ def coq_check(c, o):
         if not all(tgen.all_int(r["vals"]) for r in runs):
             return "false"
         if c.args.get("huge"):
-            return f"all_same_sorted {glist([X.gsp_sorted(r) for r in runs])}"
+            e = f"all_same_sorted {glist([X.gsp_sorted(r) for r in runs])}"
+            if c.op == "mul":
+                # wave 5: model tie of the huge sparse * sparse case — the observation (sorted) is literally what the linear-time walk over
+                # the two operands (listed ascending) returns; C06_huge_mul_sound: well-formed, the product, = impl_mul up to stored order
+                e += f" && huge_mul_ok {X.gsp_lex(c.args)} {X.gsp_lex(c.args, 'bsubs', 'bvals')} {X.gsp_sorted(runs[0])}"
+            return e
         fn = "all_same_sparse_e" if c.op == "squash" else "all_same_sparse"     # squash shapes can be large
         return f"{fn} {glist([c03.gobs_sparse_z(r) for r in runs])}" + extra
     if isdiv:
@@ -376,6 +416,48 @@ def coq_check(c, o):
     if not all(tgen.all_int(r["data"]) for r in runs):
         return "false"
     return "all_same_dense " + glist([tgen.gdense(r["shape"], r["data"]) for r in runs])
+
+
+def check_agg_red(c, runs):
+    """from_aggregator with a reducer other than sum: every run is well-formed and is what the model (C03Ops.from_aggregator with the
+    reducer red_*) returns on the rows as listed in that run; for the permutation-invariant reducers all runs are the same result
+    (C06_from_aggregator_reducers_indep); for `first` the runs legitimately differ (the property speaks about stored orders of TENSORS)"""
+    a = c.args
+    plan = run_plan(c)
+    if any(r.get("kind") != "sparse" or not c03.raw_ok(r) or not X.strict_ok(r) or not tgen.all_int(r["vals"]) for r in runs):
+        return "false"
+    items = []
+    for r, (pa, pb, _) in zip(runs, plan):
+        b = permuted(a, pa, pb)
+        items.append(f"({c03.gobs_sparse_z(r)}, ({gnlist(a['shape'])}, ({gnmat(b['subs'])}, {gzlist(b['vals'])})))")
+    e = f"agg_runs_ok red_{a['red']} {glist(items)}"
+    if a["red"] != "first":
+        e += f" && all_same_sparse {glist([c03.gobs_sparse_z(r) for r in runs])}"
+    return e
+
+
+def oracle_agg_red(c, runs):
+    a = c.args
+    f = lambda g: X.py_reduce(a["red"], g)
+    for r, (pa, pb) in zip(runs, labels(c)):
+        if r.get("kind") != "sparse":
+            return f"input order {pa}: returns {r.get('kind')}"
+        p = X.strict_problem(r) or U.wf_problems(r, a["shape"])
+        if p:
+            return f"input order {pa}: ill-formed sparse result: {p}"
+        groups = {}
+        for k in pa:
+            groups.setdefault(tuple(a["subs"][k]), []).append(a["vals"][k])
+        want = {i: f(g) for i, g in groups.items() if f(g) != 0}
+        got = {tuple(s_): v for s_, v in zip(r["subs"], r["vals"])}
+        if got != want:
+            return f"input order {pa}: from_aggregator({a['red']}) stores {got}, the groups reduce to {want}"
+    if a["red"] != "first":
+        c0 = canon_py(runs[0])
+        for r, (pa, pb) in zip(runs[1:], labels(c)[1:]):
+            if canon_py(r) != c0:
+                return f"input order {pa} of the same rows gives a different result: {r} vs {runs[0]}"
+    return None
 
 
 def check_asis(c, runs):
@@ -457,6 +539,8 @@ def oracle(c, o):
             return f"stored order {pa}/{pb}: raises {r['exc']} while another stored order of the same operands returns a result"
     if c.op in X.EXT_OPS:
         return X.oracle_ext(c, runs, labels(c))
+    if c.op == "from_agg_red":
+        return oracle_agg_red(c, runs)
     if c.op in ("div_asis", "squash_asis"):
         # the property itself (finding repaired) or the as-is behaviour (finding open) — anything else is reported
         if oracle(Case(c.op[:-5], c.args, c.nontrivial), o) is None:
